@@ -1,6 +1,7 @@
 package props
 
 import (
+	"os"
 	"fmt"
 	"go/types"
 	"strings"
@@ -110,7 +111,7 @@ func (env *Env) c15Device() {
 		{rule: "GATE", name: "quote-err", m: pat.Bin("==", pat.Res("1", io2), pat.Const("nil")), expect: "quote request error == nil"},
 		{rule: "GATE", name: "quote-result", m: pat.Bin("==", pat.Res("0", io2), pat.Const(okCode)), expect: "quote request result == TdxAttestSuccess"},
 		{rule: "GATE", name: "status", m: pat.Bin("==", pat.Field(hdrOut, "Status"), pat.Const("0")), expect: "header Status (loaded after the quote request) == 0"},
-		{rule: "GATE", name: "outlen-nonzero", m: pat.Bin("!=", pat.Field(hdrOut, "OutLen"), pat.Const("0")), expect: "header OutLen != 0"},
+		{rule: "GATE", name: "outlen-nonzero", m: pat.NonZero(pat.Field(hdrOut, "OutLen")), expect: "header OutLen != 0"},
 		{rule: "GATE", name: "outlen-max", m: pat.Bin("<=", pat.Field(hdrOut, "OutLen"), pat.Const(bufSize)), expect: "header OutLen <= ReqBufSize"},
 	})
 	for _, a := range alts {
@@ -138,6 +139,10 @@ func (env *Env) c15Device() {
 				}
 			}
 		}
+	}
+	below := map[*ssa.Function]bool{}
+	for _, f := range env.calleesBelow(fn) {
+		below[f] = true
 	}
 	// request 1 input: copy(req.ReportData[:], reportData[:])
 	okCopy1, okCopy2 := false, false
@@ -168,11 +173,36 @@ func (env *Env) c15Device() {
 			// src = (out of request 1).TdReport[:][:1024]
 			fromReq1 := strings.Contains(s.String(), "out["+site1+"#") && strings.Contains(s.String(), ".TdReport")
 			upto := s.Op == flow.OpSlice && s.Args[2].IsConst(reportSize)
+			if os.Getenv("TDXLINT_DEBUG") != "" {
+				fmt.Fprintln(os.Stderr, "copy2 dst:", dst.String(), "\n src:", s.String(), fromReq1, upto)
+			}
 			if fromReq1 && upto && !strings.Contains(dst.String(), "out[") {
 				okCopy2 = true
 			}
 		}
 	})
+	if !okCopy1 {
+		// the same as a whole-array assignment: req.ReportData = reportData (also as
+		// the composite literal TdxReportReq{ReportData: reportData}) before request 1
+		e.Walk(fn, true, func(in ssa.Instruction, fr flow.Frame) {
+			st, ok := in.(*ssa.Store)
+			if !ok {
+				return
+			}
+			fa, ok := st.Addr.(*ssa.FieldAddr)
+			if !ok {
+				return
+			}
+			k, ok := load.FieldKeyOf(fa.X.Type(), fa.Field)
+			if !ok || k.Field != "ReportData" || !strings.HasSuffix(k.Type, labi+".TdxReportReq") {
+				return
+			}
+			if flow.Eq(flow.StripConv(e.Eval(st.Val, fr.Ctx)), rd) && dominatesInstr2(st, c1, e, fn) {
+				okCopy1 = true
+				w1 = env.P.Pos(st.Pos())
+			}
+		})
+	}
 	if okCopy1 {
 		r.OK("C15/REQ1", "report-data-in", w1, "copy(req.ReportData[:], reportData[:]) before the report request")
 	} else {
@@ -183,7 +213,8 @@ func (env *Env) c15Device() {
 	} else {
 		r.Fail("C15/REQ2", "td-report-in", w2, "the first 1024 bytes of the TD report written by the report request must be copied into hdr.Data before the quote request")
 	}
-	// header / request initialisation (constant stores)
+	// header / request initialisation (constant stores), in the function itself or
+	// in a helper on its call tree
 	wantStores := map[string]string{"TdxQuoteHdr.InLen": reportSize, "TdxQuoteHdr.Version": "1", "TdxQuoteHdr.Status": "0", "TdxQuoteReq.Length": bufSize}
 	for k, ss := range env.P.FieldSt {
 		if !strings.Contains(k.Type, labi) {
@@ -195,10 +226,13 @@ func (env *Env) c15Device() {
 			continue
 		}
 		for _, s := range ss {
-			if s.Parent() != fn {
+			if !below[s.Parent()] {
 				continue
 			}
-			v := e.Eval(s.Val, e.Root(fn))
+			v := e.Eval(s.Val, e.UnknownCtx(s.Parent()))
+			if s.Parent() == fn {
+				v = e.Eval(s.Val, e.Root(fn))
+			}
 			if flow.StripConv(v).IsConst(want) {
 				r.OK("C15/REQ2", short, env.P.Pos(s.Pos()), short+" = "+want)
 			} else {
@@ -212,8 +246,11 @@ func (env *Env) c15Device() {
 	}
 	// Buffer = the header
 	for _, s := range env.storesTo(labi+".TdxQuoteReq", "Buffer") {
-		if s.Parent() == fn {
-			v := e.Eval(s.Val, e.Root(fn))
+		if below[s.Parent()] {
+			v := e.Eval(s.Val, e.UnknownCtx(s.Parent()))
+			if s.Parent() == fn {
+				v = e.Eval(s.Val, e.Root(fn))
+			}
 			if hdr(v, pat.Bind{}) {
 				r.OK("C15/REQ2", "buffer", env.P.Pos(s.Pos()), "TdxQuoteReq.Buffer = hdr")
 			} else {
